@@ -21,8 +21,8 @@
 use std::collections::HashMap;
 use std::io::{self, BufRead, Write};
 use std::panic::{AssertUnwindSafe, catch_unwind};
-use std::sync::atomic::{AtomicBool, AtomicU64, Ordering};
-use std::sync::{Arc, Barrier, mpsc};
+use std::sync::atomic::{AtomicBool, AtomicU64, AtomicUsize, Ordering};
+use std::sync::{Arc, mpsc};
 use std::time::Duration;
 
 use mdk_storage_traits::MdkStorageProvider;
@@ -81,8 +81,95 @@ struct Ev {
     res: String,
 }
 
-/// one repetition: returns (events, final dump, status)
-fn run_once(kind: &str, seed: u64, setup: &[String], threads: &[Vec<String>], post: &[String]) -> (Vec<Ev>, Vec<String>, String, &'static str) {
+/// what the worker threads of a case are handed for one repetition
+struct Job {
+    be: Arc<Be>,
+    seed: u64,
+    clock: Arc<AtomicU64>,
+    panicked: Arc<AtomicBool>,
+    /// start line: every worker increments it and spins until all have arrived, so that the
+    /// threads really start together (a futex-based barrier wakes them one after the other)
+    arrived: Arc<AtomicUsize>,
+}
+
+/// The worker threads of one case.  They are spawned ONCE per case and reused for all its
+/// repetitions (spawning threads per repetition costs milliseconds here and was the bulk of a
+/// repetition); every repetition still gets a fresh backend, a fresh logical clock and its own seed.
+struct Workers {
+    n: usize,
+    jobs: Vec<mpsc::Sender<Option<Job>>>,
+    results: mpsc::Receiver<Vec<Ev>>,
+    handles: Vec<std::thread::JoinHandle<()>>,
+}
+
+impl Workers {
+    fn spawn(threads: &[Vec<String>]) -> Workers {
+        let n = threads.len();
+        let (tx, results) = mpsc::channel::<Vec<Ev>>();
+        let mut jobs = vec![];
+        let mut handles = vec![];
+        for (ti, ops) in threads.iter().enumerate() {
+            let (jtx, jrx) = mpsc::channel::<Option<Job>>();
+            jobs.push(jtx);
+            let tx = tx.clone();
+            let ops = ops.clone();
+            handles.push(std::thread::spawn(move || {
+                let _ = store::mk_pk(0); // warm the key pool before the first start line
+                while let Ok(Some(job)) = jrx.recv() {
+                    let mut rng = Rng(job.seed.wrapping_mul(0x9E3779B97F4A7C15).wrapping_add(ti as u64 * 7919 + 1) | 1);
+                    let mut evs = vec![];
+                    // start line
+                    job.arrived.fetch_add(1, Ordering::SeqCst);
+                    let mut spins = 0u32;
+                    while job.arrived.load(Ordering::SeqCst) < n {
+                        spins += 1;
+                        if spins % 256 == 0 {
+                            std::thread::yield_now();
+                        } else {
+                            std::hint::spin_loop();
+                        }
+                    }
+                    for (k, l) in ops.iter().enumerate() {
+                        let t: Vec<&str> = l.split_whitespace().collect();
+                        pause(&mut rng, (ti as u64) % 3);
+                        let start = job.clock.fetch_add(1, Ordering::SeqCst);
+                        let r = catch_unwind(AssertUnwindSafe(|| match &*job.be {
+                            Be::Mem(s) => exec_conc(s, &t),
+                            Be::Sql(s, _) => exec_conc(s, &t),
+                        }));
+                        let end = job.clock.fetch_add(1, Ordering::SeqCst);
+                        let res = match r {
+                            Ok(s) => s,
+                            Err(_) => {
+                                job.panicked.store(true, Ordering::SeqCst);
+                                "panic".into()
+                            }
+                        };
+                        evs.push(Ev { t: ti, k, start, end, res });
+                    }
+                    drop(job);
+                    if tx.send(evs).is_err() {
+                        break;
+                    }
+                }
+            }));
+        }
+        Workers { n, jobs, results, handles }
+    }
+
+    /// stop and join the workers (not called after a deadlock: the threads are leaked then)
+    fn finish(self) {
+        for j in &self.jobs {
+            let _ = j.send(None);
+        }
+        for h in self.handles {
+            let _ = h.join();
+        }
+    }
+}
+
+/// one repetition: returns (events, post results, final dump, status)
+fn run_once(w: &Workers, kind: &str, seed: u64, setup: &[String], post: &[String]) -> (Vec<Ev>, Vec<String>, String, &'static str) {
     let be = Arc::new(store::new_backend(kind, true));
     for l in setup {
         let t: Vec<&str> = l.split_whitespace().collect();
@@ -93,49 +180,16 @@ fn run_once(kind: &str, seed: u64, setup: &[String], threads: &[Vec<String>], po
     }
     let clock = Arc::new(AtomicU64::new(1));
     let panicked = Arc::new(AtomicBool::new(false));
-    let barrier = Arc::new(Barrier::new(threads.len()));
-    let (tx, rx) = mpsc::channel::<Vec<Ev>>();
-    let mut handles = vec![];
-    for (ti, ops) in threads.iter().enumerate() {
-        let be = be.clone();
-        let clock = clock.clone();
-        let barrier = barrier.clone();
-        let panicked = panicked.clone();
-        let tx = tx.clone();
-        let ops = ops.clone();
-        handles.push(std::thread::spawn(move || {
-            let mut rng = Rng(seed.wrapping_mul(0x9E3779B97F4A7C15).wrapping_add(ti as u64 * 7919 + 1) | 1);
-            let _ = store::mk_pk(0); // warm the per-thread key pool before the start line
-            let mut evs = vec![];
-            barrier.wait();
-            for (k, l) in ops.iter().enumerate() {
-                let t: Vec<&str> = l.split_whitespace().collect();
-                pause(&mut rng, (ti as u64) % 3);
-                let start = clock.fetch_add(1, Ordering::SeqCst);
-                let r = catch_unwind(AssertUnwindSafe(|| match &*be {
-                    Be::Mem(s) => exec_conc(s, &t),
-                    Be::Sql(s, _) => exec_conc(s, &t),
-                }));
-                let end = clock.fetch_add(1, Ordering::SeqCst);
-                let res = match r {
-                    Ok(s) => s,
-                    Err(_) => {
-                        panicked.store(true, Ordering::SeqCst);
-                        "panic".into()
-                    }
-                };
-                evs.push(Ev { t: ti, k, start, end, res });
-            }
-            let _ = tx.send(evs);
-        }));
+    let arrived = Arc::new(AtomicUsize::new(0));
+    for j in &w.jobs {
+        let _ = j.send(Some(Job { be: be.clone(), seed, clock: clock.clone(), panicked: panicked.clone(), arrived: arrived.clone() }));
     }
-    drop(tx);
     let mut evs = vec![];
     let mut done = 0;
     let deadline = std::time::Instant::now() + WATCHDOG;
-    while done < threads.len() {
+    while done < w.n {
         let left = deadline.saturating_duration_since(std::time::Instant::now());
-        match rx.recv_timeout(left) {
+        match w.results.recv_timeout(left) {
             Ok(mut v) => {
                 evs.append(&mut v);
                 done += 1;
@@ -146,9 +200,6 @@ fn run_once(kind: &str, seed: u64, setup: &[String], threads: &[Vec<String>], po
                 return (evs, vec![], "-".into(), "deadlock");
             }
         }
-    }
-    for h in handles {
-        let _ = h.join();
     }
     evs.sort_by_key(|e| (e.t, e.k));
     let mut posts = vec![];
@@ -235,8 +286,10 @@ pub fn main(_args: &[String]) -> i32 {
             }
             "run" => {
                 let mut seen: HashMap<String, (u64, u64)> = HashMap::new();
+                let workers = Workers::spawn(&threads);
+                let mut deadlocked = false;
                 for r in 0..repeat {
-                    let (evs, posts, fin, status) = run_once(&kind, seed.wrapping_add(r.wrapping_mul(1_000_003)), &setup, &threads, &post);
+                    let (evs, posts, fin, status) = run_once(&workers, &kind, seed.wrapping_add(r.wrapping_mul(1_000_003)), &setup, &post);
                     let sig = signature(&evs, &posts, &fin, status);
                     if let Some(e) = seen.get_mut(&sig) {
                         e.1 += 1;
@@ -254,8 +307,12 @@ pub fn main(_args: &[String]) -> i32 {
                     writeln!(out, "status {status}").unwrap();
                     if status == "deadlock" {
                         // leaked threads may still hold the backend: stop repeating this case
+                        deadlocked = true;
                         break;
                     }
+                }
+                if !deadlocked {
+                    workers.finish();
                 }
                 let mut v: Vec<(u64, u64)> = seen.values().cloned().collect();
                 v.sort();
